@@ -136,8 +136,12 @@ func (n *EvalNode) eval(expressions []stateful.Expression, p edge.FieldsTagsTime
 		if l := len(n.e.KeepList); l != 0 {
 			newFields = make(models.Fields, l)
 			for _, f := range n.e.KeepList {
-				// Try the vars scope first
-				if vars.Has(f) {
+				// Try the results of the expressions first
+				isResult := false
+				for _, as := range n.e.AsList {
+					isResult = isResult || as == f
+				}
+				if isResult {
 					v, err := vars.Get(f)
 					if err != nil {
 						return err
